@@ -220,6 +220,7 @@ class SimKernel(object):
         self.npipes = 0
         self.faults = {}           # call -> [errno, remaining]
         self.pending_deaths = []
+        self.fault_counts = {}
         self.foreign = {}
         self.missing = set()
         self.last_cmd = None
@@ -321,6 +322,13 @@ class SimKernel(object):
         self.rec('event', name=name, rpc=self.in_rpc, **d)
 
     def fault(self, call):
+        fa = getattr(self, 'fault_at', None)
+        if fa and call in fa:
+            n = self.fault_counts.get(call, 0)
+            self.fault_counts[call] = n + 1
+            if n in fa[call]:
+                self.rec('fault', call=call, errno=fa[call][n])
+                raise OSError(fa[call][n], 'injected ' + call)
         f = self.faults.get(call)
         if f and f[1] > 0:
             f[1] -= 1
